@@ -158,9 +158,20 @@ Proof.
     split; [|split; [|split; [|split]]]; try assumption.
     + intros p i I. apply in_del_entry_peer in I as [I _]. now apply I1.
     + destruct (ph s); try exact I. destruct I5 as [A _]. rewrite A in E. discriminate.
-  - (* ReqStart *)
+  - (* StreamArrive *)
     destruct (find_h h (hands s)) as [x|] eqn:F; [|discriminate].
     destruct (h_ph x) eqn:Px; try discriminate. destruct (endpoint_closed s); [discriminate|].
+    inversion H; subst; clear H. unfold inv, set_hands. cbn [entries hands ph next_id inbound calls].
+    split; [|split; [|split; [|split]]]; try assumption.
+    1: { intros p i I. destruct (I1 p i I) as [y [Fy [A B]]].
+         destruct (N.eq_dec i h) as [->|Hne].
+         * rewrite find_h_upd_same by reflexivity. rewrite Fy. eexists. split; [reflexivity|]. cbn. auto.
+         * rewrite find_h_upd_other by (auto; reflexivity). eauto. }
+    1: { intros y I. apply in_upd_h in I as [y0 [I0 [->| ->]]]; [now apply I2|]. cbn. now apply I2. }
+    all: destruct (ph s); try exact I; try (rewrite I4 in F; discriminate).
+  - (* ReqStart *)
+    destruct (find_h h (hands s)) as [x|] eqn:F; [|discriminate].
+    destruct (h_ph x) eqn:Px; try discriminate. destruct (h_backlog x) as [|b] eqn:Bx; [discriminate|].
     inversion H; subst; clear H. unfold inv, set_hands. cbn [entries hands ph next_id inbound calls].
     split; [|split; [|split; [|split]]]; try assumption.
     1: { intros p i I. destruct (I1 p i I) as [y [Fy [A B]]].
@@ -420,9 +431,15 @@ Proof.
     assert (length (del_entry_peer peer (entries s)) < length (entries s))%nat.
     { unfold del_entry_peer. apply length_filter_lt with (x := e); [exact Ie|]. now rewrite Ee. }
     lia.
-  - (* ReqStart: no new streams once the endpoint is closed *)
+  - (* StreamArrive: nothing arrives once the endpoint is closed *)
     destruct (find_h h (hands s)) as [x|] eqn:F; [|discriminate]. destruct (h_ph x); try discriminate.
     rewrite Ec in H. discriminate.
+  - (* ReqStart: a waiting stream becomes a running request *)
+    destruct (find_h h (hands s)) as [x|] eqn:F; [|discriminate]. destruct (h_ph x) eqn:Px; try discriminate.
+    destruct (h_backlog x) as [|b] eqn:Bx; [discriminate|]. inversion H; subst; clear H.
+    cbn [ph inbound entries hands set_hands]. split; [exact NL|].
+    pose proof (sum_weight_upd h (fun h0 => set_reqs (set_backlog h0 b) (S (h_reqs h0))) (hands s) x ltac:(reflexivity) U1 F) as W.
+    unfold weight in W. cbn [set_reqs set_backlog h_ph h_reqs h_backlog] in W. rewrite Px, Bx in W. lia.
   - (* ReqEnd *)
     destruct (find_h h (hands s)) as [x|] eqn:F; [|discriminate].
     assert (Hres : exists n, h_reqs x = S n /\ (h_ph x = HRunning \/ h_ph x = HDraining)
@@ -430,20 +447,20 @@ Proof.
     { destruct (h_ph x) eqn:Px; try discriminate; destruct (h_reqs x) eqn:R; try discriminate; inversion H; eauto. }
     destruct Hres as [n [R [Px ->]]]. clear H. cbn [ph inbound entries hands set_hands]. split; [exact NL|].
     pose proof (sum_weight_upd h (fun h0 => set_reqs h0 n) (hands s) x ltac:(reflexivity) U1 F) as W.
-    unfold weight in W. cbn [set_reqs h_ph h_reqs] in W. rewrite R in W.
+    unfold weight in W. cbn [set_reqs h_ph h_reqs h_backlog] in W. rewrite R in W.
     destruct Px as [Px|Px]; rewrite Px in W; lia.
   - (* HExit *)
     destruct (find_h h (hands s)) as [x|] eqn:F; [|discriminate]. destruct (h_ph x) eqn:Px; try discriminate.
     inversion H; subst; clear H. cbn [ph inbound entries hands]. split; [exact NL|].
     pose proof (sum_weight_upd h (fun h0 => set_ph h0 HDraining) (hands s) x ltac:(reflexivity) U1 F) as W.
-    unfold weight in W. cbn [set_ph h_ph h_reqs] in W. rewrite Px in W.
+    unfold weight in W. cbn [set_ph h_ph h_reqs h_backlog] in W. rewrite Px in W.
     pose proof (length_filter_le (fun e => negb ((fst e =? h_peer x) && (snd e =? h))) (entries s)).
     unfold del_entry_exact. lia.
   - (* HAbort *)
     destruct (find_h h (hands s)) as [x|] eqn:F; [|discriminate]. destruct (h_ph x) eqn:Px; try discriminate.
     inversion H; subst; clear H. cbn [ph inbound entries hands set_hands]. split; [exact NL|].
     pose proof (sum_weight_upd h (fun h0 => set_ph (set_reqs h0 0) HEnded) (hands s) x ltac:(reflexivity) U1 F) as W.
-    unfold weight in W. cbn [set_ph set_reqs h_ph h_reqs] in W. rewrite Px in W. lia.
+    unfold weight in W. cbn [set_ph set_reqs h_ph h_reqs h_backlog] in W. rewrite Px in W. lia.
   - (* Join *)
     destruct (find_h h (hands s)) as [x|] eqn:F; [|destruct (ph s); discriminate].
     assert (Hres : s' = set_hands s (del_h h (hands s))).
@@ -575,6 +592,7 @@ Proof.
   - brk H. inversion H; subst; clear H. cbn [calls in_loop ph]. split; auto.
   - brk H; inversion H; subst; clear H; unfold set_hands; cbn [calls in_loop ph]; split; auto.
   - brk H; inversion H; subst; clear H; unfold set_hands; cbn [calls in_loop ph]; split; auto.
+  - brk H; inversion H; subst; clear H; unfold set_hands; cbn [calls in_loop ph]; split; auto.
   - brk H; inversion H; subst; clear H; cbn [calls in_loop ph]; split; auto.
   - brk H; inversion H; subst; clear H; unfold set_hands; cbn [calls in_loop ph]; split; auto.
   - brk H; inversion H; subst; clear H; unfold set_hands, set_phase; cbn [calls in_loop ph]; split; auto;
@@ -668,6 +686,7 @@ Proof.
   - brk H. inversion H; subst. cbn [ph calls hands]. auto.
   - brk H; inversion H; subst; unfold set_hands; cbn [ph calls hands]; (split; [exact L|split; [exact N|apply Cupd; intros x Hx; first [exact Hx|cbn; discriminate]]]).
   - brk H; inversion H; subst; unfold set_hands; cbn [ph calls hands]; (split; [exact L|split; [exact N|apply Cupd; intros x Hx; first [exact Hx|cbn; discriminate]]]).
+  - brk H; inversion H; subst; unfold set_hands; cbn [ph calls hands]; (split; [exact L|split; [exact N|apply Cupd; intros x Hx; first [exact Hx|cbn; discriminate]]]).
   - brk H; inversion H; subst; cbn [ph calls hands]; (split; [exact L|split; [exact N|apply Cupd; intros x Hx; first [exact Hx|cbn; discriminate]]]).
   - brk H; inversion H; subst; unfold set_hands; cbn [ph calls hands]; (split; [exact L|split; [exact N|apply Cupd; intros x Hx; first [exact Hx|cbn; discriminate]]]).
   - rewrite L in H. destruct (find_h h (hands s)) as [x|] eqn:F; [|discriminate].
@@ -693,4 +712,10 @@ Proof.
     destruct (step s0 l) as [s2|] eqn:E; [|discriminate]. eapply IH; [|exact B2|exact H]. eapply step_loop; eassumption. }
   intros B H. apply (G ls init s); [|exact B|exact H].
   unfold loop_inv, init. cbn. repeat split. intros h [].
+Qed.
+
+Lemma nothing_arrives_after_close s h : endpoint_closed s = true -> step s (StreamArrive h) = None.
+Proof.
+  intros E. cbn [step]. destruct (find_h h (hands s)) as [x|]; [|reflexivity].
+  destruct (h_ph x); try reflexivity. now rewrite E.
 Qed.
